@@ -242,7 +242,7 @@ def check(run):
 
     # ------------------------------------------------------------ tcp-connect
     run.clause('R10 tcp-connect: completing the connect on SYN-ACK resumes a write parked behind it')
-    mv = [f for f in handlers.flows_in(fx, ip) if f.entity == 'field:' + T + '::m_connect_handler' and f.dest == 'post']
+    mv = [f for f in handlers.flows_in(fx, ip) if f.entity == 'field:' + T + '::m_connect_handler' and (f.dest == 'post' or f.kind in ('move', 'exchange'))]     # taken out of the slot to be completed (directly, or through a posting helper)
     resets = [c for c in ip.calls() if (c.get('callee') or '').endswith('::reset') and q.render(ip, c.get('obj')) == 'm_channel']
     synack_wakes = [w for w in wakes if w not in ack_wakes]
     run.check(bool(mv) and all(q.must_follow(ip, f.site, synack_wakes + resets) for f in mv) and bool(synack_wakes), 'R10', 'tcp-connect', T + '::incoming_packet:syn_ack-branch', ip.loc(),
